@@ -120,6 +120,64 @@ def gen_loop_cases(rng, n):
     return cases
 
 
+def compress(fmt, data):
+    import bz2
+    import gzip
+    import lzma
+    if fmt == "gz":
+        return gzip.compress(data, 6, mtime=0)
+    if fmt == "bz2":
+        return bz2.compress(data)
+    if fmt == "xz":
+        return lzma.compress(data)
+    return data
+
+
+def decompress(blob):
+    import bz2
+    import gzip
+    import lzma
+    if blob[:2] == b"\x1f\x8b":
+        return gzip.decompress(blob)
+    if blob[:3] == b"BZh":
+        return bz2.decompress(blob)
+    if blob[:6] == b"\xfd7zXZ\x00":
+        return lzma.decompress(blob)
+    return blob
+
+
+def transient_oracle(rng, first):
+    """only transient conditions: a first read of `first` bytes, then interruptions and short reads, never a failure;
+    long enough for any input of the generator"""
+    o = ["i"] * rng.choice([0, 0, 1, 2]) + ["d%d" % first]
+    for _ in range(rng.range(0, 12)):
+        o += ["i"] * rng.choice([0, 0, 1]) + ["d%d" % rng.choice([1, 2, 3, 5, 6, 7, 64, 4096])]
+    return o + ["d65536"] * 40
+
+
+def gen_compressed_cases(rng, n):
+    """ReadFactory's format sniffing and util::ReadCompressed under short first reads: the first transfer is shorter than
+    each magic (gzip 2, bzip2 3, xz 6 bytes), exactly as long, one longer"""
+    cases = []
+    for _ in range(n):
+        text = b" ".join(rng.choice([b"a", b"bb", b"looking", b"on", b"<s>", b"\xc3\xa9"]) for _ in range(rng.choice([0, 1, 3, 40, 400]))) + b"\n"
+        if rng.chance(1, 5):
+            text = rnd_bytes(rng, rng.choice([0, 1, 5, 6, 7, 300]))
+        if rng.chance(1, 3):
+            # uncompressed input: what ReadFactory sniffed is observable as the first Read()
+            if text[:2] == b"\x1f\x8b" or text[:3] == b"BZh" or text[:6] == b"\xfd7zXZ\x00":
+                text = b"x" + text
+            o = transient_oracle(rng, rng.choice([1, 2, 3, 5, 6, 7])) if rng.chance(3, 4) else gen_oracle(rng, min(6, len(text)))
+            cases.append("SN %s %s" % (hexs(text), orc(o)))
+        else:
+            fmt = rng.choice(["gz", "bz2", "xz", "plain"])
+            blob = compress(fmt, text)
+            first = rng.choice([1, 2, 3, 4, 5, 6, 7, rng.range(1, 9)])
+            o = transient_oracle(rng, first) if rng.chance(5, 6) else gen_oracle(rng, len(blob)) + ["d65536"] * 3
+            cases.append("RC %s %s" % (hexs(blob), orc(o)))
+    return cases
+
+
 def gen_stream_cases(rng, n, kconst):
     kmax, k16, k32, k64 = kconst
     cases = []
@@ -186,7 +244,7 @@ def loop_oracle(case, out):
         has_failure = has_failure or "i" in oracle      # one call, no retry: EINTR surfaces as an exception
     if st == "zero" and "d0" not in oracle:
         return "zero-length-transfer exception although no call transferred nothing"
-    if st not in ("ok", "nooracle") and not has_failure and not (kind in ("R", "PR") and st == "eof"):
+    if st not in ("ok", "nooracle", "exc") and not has_failure and not (kind in ("R", "PR") and st == "eof"):
         return "exception %s although no call failed" % st
     if kind == "W":
         data, got = unhex(f[1]), unhex(o[1])
@@ -227,6 +285,21 @@ def loop_oracle(case, out):
             exp[off:off + m] = data[:m]
         if bytes(exp) != after:
             return "file after the call is not the old file with the first %d bytes stored at %d" % (m, off)
+    elif kind in ("SN", "RC"):
+        blob = unhex(f[1])
+        got = unhex(o[1])
+        transient_only = not has_failure and len([x for x in oracle if x != "i"]) >= 30
+        if st == "exc" and not has_failure and st != "nooracle":
+            return "the decompressor rejected the input although every call succeeded"
+        if kind == "RC":
+            want = decompress(blob)
+            if st == "ok" and "d0" not in oracle and got != want:      # (a read returning 0 IS end of input)
+                return "ReadCompressed delivered %d bytes that are not the decompressed input (%d bytes): short or interrupted reads changed the result" % (len(got), len(want))
+            if transient_only and st != "ok":
+                return "only transient conditions, yet status %s" % st
+        else:
+            if st == "ok" and "d0" not in oracle and got != blob[:6]:
+                return "the header handed to DetectMagic is %d bytes, the input starts with %d" % (len(got), len(blob[:6]))
     elif kind == "FS":
         got = unhex(o[1])
         want = b"".join(stream_data(op) for op in ([] if f[3] == "-" else f[3].split(",")))
@@ -279,6 +352,10 @@ def make_inputs(ctx, d):
     with open(os.path.join(d, "vocab.txt"), "w") as f:
         f.write("a b c d e x looking on also would\n")
     shutil.copy(os.path.join(vlib.REPO, "lm", "test.arpa"), os.path.join(d, "test.arpa"))
+    for src in ("corpus1.txt", "test.arpa"):
+        data = open(os.path.join(d, src), "rb").read()
+        for fmt in ("gz", "bz2", "xz"):
+            open(os.path.join(d, src + "." + fmt), "wb").write(compress(fmt, data))
     # SRI-style pruned model: a context that exists only as a blank (in-place overwrite path of the trie builder, F8)
     open(os.path.join(d, "sri.arpa"), "w").write(
         "\\data\\\nngram 1=6\nngram 2=1\nngram 3=1\n\n\\1-grams:\n-1.0\t<unk>\n-1.0\t<s>\t-0.5\n-1.0\t</s>\n-1.0\ta\n-1.25\tb\n-1.5\tx\t-0.25\n\n"
@@ -290,12 +367,25 @@ def run_cmd(argv, cwd, stdin=None, stdout=None, env=None, timeout=60, prefix=())
     e = dict(os.environ)
     if env:
         e.update(env)
-    fin = open(os.path.join(cwd, stdin), "rb") if stdin else subprocess.DEVNULL
+    feed = None
+    if stdin and stdin.startswith("pipe:"):
+        feed = open(os.path.join(cwd, stdin[5:]), "rb").read()
+        stdin = None
+        fin = subprocess.PIPE
+    else:
+        fin = open(os.path.join(cwd, stdin), "rb") if stdin else subprocess.DEVNULL
     fout = open(os.path.join(cwd, stdout), "wb") if stdout else subprocess.DEVNULL
     try:
         p = subprocess.Popen(list(prefix) + argv, cwd=cwd, stdin=fin, stdout=fout, stderr=subprocess.DEVNULL, env=e, start_new_session=True)
         try:
-            rc = p.wait(timeout=timeout)
+            if feed is not None:
+                try:
+                    p.communicate(input=feed, timeout=timeout)
+                except BrokenPipeError:
+                    pass
+                rc = p.wait(timeout=timeout)
+            else:
+                rc = p.wait(timeout=timeout)
         except subprocess.TimeoutExpired:
             try:
                 os.killpg(p.pid, signal.SIGKILL)
@@ -396,6 +486,12 @@ def tool_specs(bins, d):
         Tool("build_binary-trie-sri", [bins["build_binary"], "-T", "tmp/", "-S", "10M", "trie", "../sri.arpa", "out.bin"], ["out.bin"], binary="out.bin"),
         Tool("filter-single", [bins["filter"], "single", "threads:1", "model:../test.arpa", "out.arpa"], ["out.arpa"], stdin="../vocab.txt"),
         Tool("filter-raw", [bins["filter"], "single", "raw", "threads:1", "model:../corpus1.txt", "out.txt"], ["out.txt"], stdin="../vocab.txt"),
+        # compressed input arriving through a pipe (not mmap-able: ReadFactory sniffs the format from read()s) and as a file
+        Tool("lmplz-gz-pipe", [L, "-o", "3"] + lm + ["-T", "tmp/", "--arpa", "out.arpa"], ["out.arpa"], stdin="pipe:../corpus1.txt.gz"),
+        Tool("lmplz-xz-pipe", [L, "-o", "3"] + lm + ["-T", "tmp/", "--arpa", "out.arpa"], ["out.arpa"], stdin="pipe:../corpus1.txt.xz"),
+        Tool("lmplz-bz2-file", [L, "-o", "3"] + lm + ["-T", "tmp/", "--text", "../corpus1.txt.bz2", "--arpa", "out.arpa"], ["out.arpa"]),
+        Tool("build_binary-bz2-pipe", [bins["build_binary"], "probing", "/dev/stdin", "out.bin"], ["out.bin"], stdin="pipe:../test.arpa.bz2", binary="out.bin"),
+        Tool("filter-gz-pipe-vocab-file", [bins["filter"], "single", "threads:1", "vocab:../vocab.txt", "out.arpa"], ["out.arpa"], stdin="pipe:../test.arpa.gz"),
         Tool("interpolate", [bins["interpolate"], "-m", "../im1", "../im2", "-w", "0.6", "0.4", "-T", "tmp/", "-S", "20M", "--sort_block", "64K"],
              ["out.arpa"], stdout="out.arpa"),
     ]
@@ -468,8 +564,13 @@ def tool_level(ctx, shim):
                 n = wide.get(sc, 0)
                 for k in choose_ks(list(range(1, n + 1)), ctx.pick(8, 10 ** 9), ctx.rng):
                     jobs.append((t, "shimfail", call, k, str(ERRNO[INJ_ERR[sc]])))
-        for s in range(ctx.pick(3, 25)):
-            jobs.append((t, "storm", "", ctx.rng.below(1 << 30), ["150", "400", "700"][s % 3]))
+        # the first read() on every descriptor returns only n bytes (a pipe whose writer has sent little so far): n below, at and
+        # above the lengths callers want at once (compression magics 2, 3, 6)
+        for n in ctx.pick((1, 2, 3, 5), (1, 2, 3, 4, 5, 6, 7)):
+            jobs.append((t, "firstread", "", n, ""))
+        piped = bool(t.stdin and t.stdin.startswith("pipe:"))
+        for s in range(ctx.pick(5 if piped else 3, 25)):
+            jobs.append((t, "storm", "", ctx.rng.below(1 << 30), ["150", "400", "700", "1000"][s % 4]))
 
     tmo = ctx.pick(6, 15)
 
@@ -496,6 +597,8 @@ def tool_level(ctx, shim):
             if rc == 124:
                 rp = os.path.join(w, "fail.report")
                 where = open(rp).read().strip() if os.path.exists(rp) else "none"
+        elif mode == "firstread":
+            rc = run_cmd(t.argv, w, t.stdin, t.stdout, timeout=timeout, env={"LD_PRELOAD": shim, "IO_SHIM_FIRST_READ": str(k)})
         else:
             rc = run_cmd(t.argv, w, t.stdin, t.stdout, timeout=timeout, env={"LD_PRELOAD": shim, "IO_SHIM_STORM": "%d:%s" % (k, err)})
         outs = read_outputs(w, t.outputs)
@@ -524,30 +627,36 @@ def tool_level(ctx, shim):
     distinct = set()
     for (t, mode, sc, k, err), rc, outs, where in results:
         stats["runs"] += 1
-        pt = stats["per_tool"].setdefault(t.name, {"inject": 0, "shimfail": 0, "storm": 0, "nonzero": 0, "exit0_identical": 0})
+        pt = stats["per_tool"].setdefault(t.name, {"inject": 0, "shimfail": 0, "storm": 0, "firstread": 0, "nonzero": 0, "exit0_identical": 0})
         pt[mode] += 1
         base_outs = baselines[t.name]
         replay = {"tool": t.name, "argv": t.argv, "stdin": t.stdin, "stdout": t.stdout, "mode": mode, "syscall": sc, "k": k, "errno": err, "rc": rc,
                   "how": ("strace -f -o /dev/null -e trace=%s -e inject=%s:error=%s:when=%d <argv>" % (sc, sc, err, k)) if mode == "inject"
                   else ("LD_PRELOAD=io_shim.so IO_SHIM_FAIL=%s:%d:%s <argv>" % (sc, k, err)) if mode == "shimfail"
+                  else ("LD_PRELOAD=io_shim.so IO_SHIM_FIRST_READ=%d <argv>  (stdin: %s)" % (k, t.stdin)) if mode == "firstread"
                   else "LD_PRELOAD=io_shim.so IO_SHIM_STORM=%d:%s <argv>" % (k, err)}
         if rc == 124:
             stats["timeouts"] += 1
             replay["fault_hit"] = where
             binname = os.path.basename(t.argv[0])
-            sig = "tool:%s:hang:fault-in-%s" % (binname, where) if mode in ("inject", "shimfail") else "tool:%s:hang:storm" % binname
+            sig = "tool:%s:hang:fault-in-%s" % (binname, where) if mode in ("inject", "shimfail") else "tool:%s:hang:%s" % (binname, mode)
             ctx.report(sig, "%s neither finished nor failed within %d s after %s (the injected error reached: %s)" % (t.name, 3 * tmo, replay["how"], where), replay)
             continue
-        if mode == "storm":
+        if mode in ("storm", "firstread"):
             if rc != 0 or outs != base_outs:
-                ctx.report("tool:%s:storm" % t.name,
-                           "interrupted calls / short transfers changed the result of %s (rc=%d, outputs %s)" % (t.name, rc, "identical" if outs == base_outs else "differ"), replay)
+                ctx.report("tool:%s:%s" % (t.name, mode),
+                           "%s changed the result of %s (rc=%d, outputs %s)" %
+                           ("interrupted calls / short transfers" if mode == "storm" else "a first read() of %d byte(s) on every descriptor" % k,
+                            t.name, rc, "identical" if outs == base_outs else "differ"), replay)
             else:
                 pt["exit0_identical"] += 1
                 stats["exit0_identical"] += 1
-                distinct.add((t.name, "storm", k, err))
+                distinct.add((t.name, mode, k, err))
             continue
-        if rc == 0:
+        if rc == 0 and sc in ("fsync", "fdatasync", "msync"):
+            # identical bytes in the page cache say nothing about a sync: the property demands that a failed sync is reported
+            ctx.report("tool:%s:%s:ignored" % (t.name, sc), "%s exits 0 although %s call #%d failed with %s: the failed sync was ignored" % (t.name, sc, k, err), replay)
+        elif rc == 0:
             if outs != base_outs:
                 which = [o for o in t.outputs if outs[o] != base_outs[o]]
                 replay["differing_outputs"] = which
@@ -615,7 +724,8 @@ def run(ctx):
     rng = ctx.rng
     cases = corpus_cases()
     ctx.count("corpus_cases", len(cases))
-    cases += gen_loop_cases(rng, ctx.pick(1600, 40000)) + gen_stream_cases(rng, ctx.pick(500, 12000), kconst)
+    cases += gen_loop_cases(rng, ctx.pick(1600, 40000)) + gen_stream_cases(rng, ctx.pick(500, 12000), kconst) + \
+        gen_compressed_cases(rng, ctx.pick(260, 6000))
     stripped = [strip_case(c) for c in cases]
     iout = run_impl(drv, shim, cases, ctx.scratch)
     iout_stripped = run_impl(drv, shim, stripped, ctx.scratch)
@@ -633,10 +743,11 @@ def run(ctx):
     model_broken = None
     try:
         model = vlib.ocaml_model("C15")
-        mout = vlib.run_lines(model, [kline] + cases, timeout=900)[1:]
-        for c, a, b in zip(cases, iout, mout):
-            if a != b:
-                mismatches.append((c, a, b))
+        mcases = [c for c in cases if not c.startswith("RC ")]      # decompression itself is not modelled (spec oracle only)
+        mout = dict(zip(mcases, vlib.run_lines(model, [kline] + mcases, timeout=900)[1:]))
+        for c, a in zip(cases, iout):
+            if c in mout and a != mout[c]:
+                mismatches.append((c, a, mout[c]))
     except vlib.ModelBroken as e:
         model_broken = str(e)
     nt = {c for c in cases if nontrivial(c)}
@@ -721,11 +832,13 @@ def replay(ctx, obj):
                                                                "inject=%s:error=%s:when=%d" % (r["syscall"], r["errno"], r["k"])])
         elif r["mode"] == "shimfail":
             rc = run_cmd(t.argv, w, t.stdin, t.stdout, env={"LD_PRELOAD": shim, "IO_SHIM_FAIL": "%s:%d:%s" % (r["syscall"], r["k"], r["errno"])})
+        elif r["mode"] == "firstread":
+            rc = run_cmd(t.argv, w, t.stdin, t.stdout, env={"LD_PRELOAD": shim, "IO_SHIM_FIRST_READ": str(r["k"])})
         else:
             rc = run_cmd(t.argv, w, t.stdin, t.stdout, env={"LD_PRELOAD": shim, "IO_SHIM_STORM": "%d:%s" % (r["k"], r["errno"])})
         outs = read_outputs(w, t.outputs)
         same = outs == base_outs
-        bad = (rc == 124) or (rc == 0 and not same) or (r["mode"] == "storm" and (rc != 0 or not same)) or \
+        bad = (rc == 124) or (rc == 0 and not same) or (r["mode"] in ("storm", "firstread") and (rc != 0 or not same)) or \
               (rc != 0 and t.binary and magic_complete(outs.get(t.binary)) and not same)
         print("tool:", t.name, "baseline rc:", rc0, "faulted rc:", rc, "outputs identical:", same, "->", "VIOLATION" if bad else "ok")
         shutil.rmtree(ctx.scratch, ignore_errors=True)
